@@ -143,6 +143,7 @@ type History struct {
 	replicaID uint32
 	byID      map[uint64]*TableDef
 	sessionCharset *[3]int32
+	exactTable     *TableDef
 }
 
 // GenOpts tunes the history generator per property.
@@ -290,6 +291,7 @@ type builder struct {
 	unit int
 	forceRows bool // every rows event carries at least one row
 	unitSID   uint32 // server id stamped on the events of the current unit (0 = the master's)
+	nameBase  int    // first binlog index of this master minus one
 }
 
 func (b *builder) curFile() *BinFile { return b.h.Files[b.file] }
@@ -329,7 +331,7 @@ func fileName(i int, s *Stream) string {
 // long names, spaces, non-ASCII and arbitrary bytes other than NUL.
 func oddFileName(i int, s *Stream) string {
 	suffix := fmt.Sprintf(".%06d", i+1)
-	switch s.Weighted(3, 1, 1, 1, 1, 1) {
+	switch s.Weighted(1, 1, 1, 1, 1, 1) {
 	case 0:
 		return "mysql-bin" + suffix
 	case 1:
@@ -352,10 +354,20 @@ func oddFileName(i int, s *Stream) string {
 }
 
 func (b *builder) nextFileName() string {
-	if b.o.OddNames {
-		return oddFileName(len(b.h.Files), b.s)
+	i := len(b.h.Files)
+	if i == 0 {
+		// numbering scheme of this master: ordinary, or about to outgrow six
+		// digits (mysql-bin.999999 is followed by mysql-bin.1000000, which sorts lower)
+		b.nameBase = 0
+		if b.o.Rare && b.s.Chance(1, 12) || b.o.OddNames && b.s.Chance(1, 6) {
+			b.nameBase = 999998 - b.s.N(2)
+		}
 	}
-	return fileName(len(b.h.Files), b.s)
+	odd := b.o.OddNames && b.s.Chance(5, 8) || !b.o.OddNames && b.o.Rare && b.s.Chance(1, 16)
+	if odd && b.nameBase == 0 {
+		return oddFileName(i, b.s)
+	}
+	return fmt.Sprintf("mysql-bin.%06d", b.nameBase+i+1)
 }
 
 func (b *builder) startFile(name string, gap uint32) {
@@ -776,13 +788,17 @@ func (b *builder) txBody(ts uint32) []ExpEvent {
 		if b.o.IgnorableGap > 0 && s.Chance(1, b.o.IgnorableGap*2) {
 			b.ignorable(ts)
 		}
-		switch s.Weighted(8, 1, 1) {
+		switch s.Weighted(16, 2, 2, 1) {
 		case 0:
 			exps = append(exps, b.rowsStatement(ts, b.pickTables())...)
 		case 1:
 			exps = append(exps, b.queryChange(ts, dmlSQL[s.N(len(dmlSQL))]))
 		case 2:
 			exps = append(exps, b.queryChange(ts, "SET @a=1"))
+		case 3:
+			// DDL that does not commit implicitly is logged inside the group
+			exps = append(exps, b.queryChange(ts, []string{"CREATE TEMPORARY TABLE tmp1 (a int)", "DROP TEMPORARY TABLE tmp1",
+				"create temporary table t_tmp like t1", "ALTER TABLE tmp1 ADD b int", "TRUNCATE TABLE tmp1"}[s.N(5)]))
 		}
 		ts = b.h.ts(s)
 	}
@@ -1010,9 +1026,9 @@ func genHistory(s *Stream, o0 *GenOpts) *History {
 	if s.Chance(1, 8) {
 		// the highest ids that still fit the table-id field
 		if h.Cfg.TableID4 {
-			idBase = 1<<32 - 2 - uint64(ntab)
+			idBase = 1<<32 - 20 - uint64(ntab)
 		} else {
-			idBase = 1<<48 - 2 - uint64(ntab)
+			idBase = 1<<48 - 20 - uint64(ntab)
 		}
 	}
 	for i := 0; i < ntab; i++ {
@@ -1021,8 +1037,9 @@ func genHistory(s *Stream, o0 *GenOpts) *History {
 		h.Tables = append(h.Tables, t)
 	}
 	if exact {
-		h.Tables = append(h.Tables, &TableDef{ID: idBase + uint64(ntab), DB: "db", Name: "exact",
-			Cols: []ColDef{{Name: "payload", Kind: kBlob, TypeCode: tBlob, Meta: []byte{4}, P1: 4}}})
+		h.exactTable = &TableDef{ID: idBase + uint64(ntab), DB: "db", Name: "exact",
+			Cols: []ColDef{{Name: "payload", Kind: kBlob, TypeCode: tBlob, Meta: []byte{4}, P1: 4}}}
+		h.Tables = append(h.Tables, h.exactTable)
 	}
 	b := &builder{h: h, s: s, o: o, unit: -1}
 	gap := uint32(0)
@@ -1067,6 +1084,32 @@ func genHistory(s *Stream, o0 *GenOpts) *History {
 		if exact && s.Chance(1, 2) {
 			b.addExactUnit()
 			continue
+		}
+		if o.TableIDReuse && s.Chance(1, 6) && len(h.Tables) < 12 {
+			// the same table shows up under a NEW table id (ids change on FLUSH
+			// TABLES, cache eviction, DDL): same name, same column count, names and
+			// signedness, other types; both ids stay in use
+			src := h.Tables[s.N(len(h.Tables))]
+			if src.Name != "exact" {
+				nt := &TableDef{DB: src.DB, Name: src.Name, Flags: src.Flags, OptMeta: src.OptMeta}
+				maxID := uint64(0)
+				for _, t := range h.Tables {
+					if t.ID > maxID {
+						maxID = t.ID
+					}
+				}
+				nt.ID = maxID + 1
+				for ci := range src.Cols {
+					c := src.Cols[ci]
+					if s.Chance(1, 2) && c.Kind != kJSON {
+						nc := genColDef(s, ci, &o.Prof)
+						nc.Name, nc.Unsigned = c.Name, c.Unsigned
+						c = nc
+					}
+					nt.Cols = append(nt.Cols, c)
+				}
+				h.Tables = append(h.Tables, nt)
+			}
 		}
 		if o.TableIDReuse && s.Chance(1, 4) {
 			// the table keeps its id, name, column count, column names and
@@ -1180,7 +1223,7 @@ func (b *builder) addExactUnit() {
 	s := b.s
 	h := b.h
 	cfg := &h.Cfg
-	t := h.Tables[len(h.Tables)-1]
+	t := h.exactTable
 	target := criticalPacketSizes[s.N(len(criticalPacketSizes))] + s.N(7) - 3
 	if s.Chance(1, 60) {
 		target = 1<<24 - 1 + s.N(5) - 2 // split over two MySQL packets (or exactly at the limit)
